@@ -31,6 +31,7 @@ REPLAY_CRATE = os.path.join(VERIF, "replay")
 TARGET = os.environ.get("VERIF_TARGET", os.path.join(VERIF, "target"))
 LOGS = os.path.join(VERIF, "logs")
 REPO = "/repo"
+SMT_ENGINES = {"C16": "smt_c16"}
 
 ENV = dict(os.environ)
 ENV["CARGO_NET_OFFLINE"] = "true"
@@ -432,6 +433,36 @@ def main():
                 inconclusive.append((h, r, "counterexample: " + detail))
         else:
             inconclusive.append((h, r, r["status"] + ": " + r["reason"]))
+    # ---- second engine (MIR -> SMT-LIB2, z3 + cvc5) for the properties that have one
+    smt_queries = []
+    if prop in SMT_ENGINES and not only:
+        mod = __import__(SMT_ENGINES[prop])
+        sys.stderr.write("[run_check] %s: running %s\n" % (prop, SMT_ENGINES[prop]))
+        smt_queries = mod.run(tier, seed)
+        for q in smt_queries:
+            sys.stderr.write("  [%s] %-44s %-12s %6.1f s  %s\n" % (time.strftime("%H:%M:%S"), q["name"], q["status"], q["time"], q["detail"][:120]))
+            if q["status"] == "FAIL":
+                rep, text = mod.replay(q)
+                rdir = os.path.join(VERIF, "replays", prop)
+                os.makedirs(rdir, exist_ok=True)
+                path = os.path.join(rdir, q["name"] + ".txt")
+                with open(path, "w") as f:
+                    f.write("SMT counterexample for %s / %s\n%s\nnative replay (real build, real AVX2 path):\n%s\n"
+                            "re-run: printf '%%s\\n' <hex> | /verif/target/native/release/vnative acgt\n" % (prop, q["name"], q["detail"], text))
+                q["replay"] = dict(reproduced=rep, path=path)
+                hq = type("Q", (), {"name": q["name"]})()
+                rq = dict(reason=q["detail"], log=path, failed_checks=[dict(desc=q["name"])])
+                if rep is True:
+                    k = match_known(known, prop, hq, rq)
+                    if k:
+                        known_hits.append((hq, k, rq))
+                    else:
+                        violations.append((hq, rq, path))
+                else:
+                    inconclusive.append((hq, rq, "SMT counterexample did not reproduce natively / could not be replayed"))
+            elif q["status"] != "PASS":
+                hq = type("Q", (), {"name": q["name"]})()
+                inconclusive.append((hq, dict(reason=q["detail"], log=""), q["status"] + ": " + q["detail"][:200]))
     wd.stop = True
 
     for h, k, r in known_hits:
@@ -443,10 +474,10 @@ def main():
         print("INCONCLUSIVE property=%s harness=%s %s (log %s)" % (prop, h.name, why, r.get("log")))
 
     wall = time.time() - t0
-    write_evidence(prop, tier, seed, hs, results, wall, violations, inconclusive, known_hits, wd)
-    n_pass = sum(1 for h in hs if results[h.name]["status"] == "PASS")
+    write_evidence(prop, tier, seed, hs, results, wall, violations, inconclusive, known_hits, wd, smt_queries)
+    n_pass = sum(1 for h in hs if results[h.name]["status"] == "PASS") + sum(1 for q in smt_queries if q["status"] == "PASS")
     print("[run_check] %s %s: %d/%d queries discharged, %d violations, %d known, %d inconclusive, %.0f s"
-          % (prop, tier, n_pass, len(hs), len(violations), len(known_hits), len(inconclusive), wall))
+          % (prop, tier, n_pass, len(hs) + len(smt_queries), len(violations), len(known_hits), len(inconclusive), wall))
     if violations:
         return 1
     if inconclusive:
@@ -454,7 +485,7 @@ def main():
     return 0
 
 
-def write_evidence(prop, tier, seed, hs, results, wall, violations, inconclusive, known_hits, wd):
+def write_evidence(prop, tier, seed, hs, results, wall, violations, inconclusive, known_hits, wd, smt_queries=()):
     v = versions()
     passed = [h for h in hs if results[h.name]["status"] == "PASS"]
     nontrivial = [h for h in passed if results[h.name]["covers_total"] > 0
@@ -470,19 +501,30 @@ def write_evidence(prop, tier, seed, hs, results, wall, violations, inconclusive
                             stubs=h.stubs, status=r["status"], solver_s=r["time"],
                             cbmc_checks=r["checks"], covers="%d/%d" % (r["covers_sat"], r["covers_total"]),
                             note=r["reason"][:200]))
+    smt_q = [q for q in smt_queries if q.get("kind") == "query"]
+    for q in smt_queries:
+        samples.append(dict(harness="smt::" + q["name"], engine="mirsmt (nightly MIR -> SMT-LIB2; z3 4.8.12 and cvc5 1.0 must agree)",
+                            bounds=q["bounds"], status=q["status"], solver_s=round(q["time"], 2), note=q["detail"][:300],
+                            functions=q.get("funcs", [])[:40]))
+        for fn in q.get("funcs", []):
+            if fn not in funcs:
+                funcs.append(fn)
+    n_smt_pass = sum(1 for q in smt_q if q["status"] == "PASS")
+    solver_time += sum(q["time"] for q in smt_queries)
     ev = dict(
         property_id=prop, tier=tier, seed=seed, level="model_checking",
         coverage=dict(
-            evaluations=len(hs),
-            distinct_nontrivial=len(nontrivial),
+            evaluations=len(hs) + len(smt_q),
+            distinct_nontrivial=len(nontrivial) + n_smt_pass,
             rule=("one evaluation = one CBMC/CaDiCaL query (a #[kani::proof] harness over kani::any() inputs, "
                   "compiled from /repo's working tree, unwinding assertions on); distinct = distinct harness "
                   "instantiations (type/shape parameters differ); non-trivial = verdict SUCCESSFUL and every "
                   "kani::cover! point of the harness proved reachable (vacuity witness)"),
             samples=samples,
             exhaustive=False,
-            queries_discharged=len(passed),
-            queries_total=len(hs),
+            queries_discharged=len(passed) + n_smt_pass,
+            queries_total=len(hs) + len(smt_q),
+            smt_translator_validation=[q["detail"] for q in smt_queries if q.get("kind") == "validation"],
             queries_inconclusive=len(inconclusive),
             cbmc_assertions_checked=checks,
             solver_time_s=round(solver_time, 1),
@@ -490,7 +532,7 @@ def write_evidence(prop, tier, seed, hs, results, wall, violations, inconclusive
             stubs_and_models=[spec.STUB_TEXT[s] for s in stubs],
             peak_cbmc_rss_mb=wd.peak_kb // 1024,
             known_findings_hit=[dict(harness=h.name, text=k.get("text", "")) for h, k, r in known_hits],
-            violations=[dict(harness=h.name, replay=p, checks=r["reason"]) for h, r, p in violations],
+            violations=[dict(harness=h.name, replay=p, checks=r["reason"][:300]) for h, r, p in violations],
             inconclusive=[dict(harness=h.name, why=w) for h, r, w in inconclusive],
             tools=v,
         ),
